@@ -79,6 +79,7 @@ def run_shard(prop, tier, seed, shard, nshards, workdir, out, only=None):
     finally:
         res = run.result()
         res["lines"] = trace.report()
+        res["lines_missing"] = trace.missing()
         with open(out, "w") as fh:
             json.dump(res, fh)
     return res
@@ -155,6 +156,13 @@ def check(prop, tier, replay=None):
             m["viol"].setdefault(mech, w)
             m["viol_count"][mech] += 1
             m["counters"][f"{w.get('monitor', 'post-merge')}|violated"] += 1
+    missing = {}
+    for r in results:
+        for k, d in r.get("lines_missing", {}).items():
+            cur = missing.get(k)
+            missing[k] = {"file": d["file"], "lines": sorted(set(d["lines"]) & set(cur["lines"]))} if cur else d
+    m["lines_missing"] = {k: {"file": os.path.relpath(v["file"], "/repo") if v["file"].startswith("/repo") else os.path.basename(v["file"]), "lines": v["lines"][:60]}
+                          for k, v in sorted(missing.items()) if v["lines"]}
     findings = runtime.load_known_findings()
     viols, known = [], []
     for mech, w in sorted(m["viol"].items()):
@@ -238,6 +246,7 @@ def write_evidence(mod, prop, tier, seed, m, lines, viols, known, inconclusive, 
             "observations": dict(sorted(m["extra"].items())),
             "observed_sets": {k: sorted(v)[:40] for k, v in m["sets"].items()},
             "anchor_line_coverage": lines,
+            "anchor_lines_not_executed": m.get("lines_missing", {}),
             "shards": nsh,
             "truncated_by_budget": bool(m["truncated"]),
             "inconclusive": inconclusive,
